@@ -8,5 +8,7 @@ open XotModel.Props
 #print axioms C12_equal_strict
 #print axioms C12_locality
 #print axioms C12_independent
+#print axioms C12_prefixes_frame
+#print axioms C12_prefixes_non_element
 #print axioms C12_store
 #print axioms C12_store_fields
